@@ -20,8 +20,9 @@ type bubbleResult struct {
 	Stack string
 	// Spin: a client goroutine was still running (never blocking) after a generous amount of
 	// real time. Frozen: the bubble made no progress for another reason (infrastructure).
-	Spin   string
-	Frozen string
+	Spin     string
+	Livelock bool
+	Frozen   string
 }
 
 // inBubble runs f inside a fresh synctest bubble (virtual time) and turns
@@ -38,31 +39,62 @@ func inBubble(t *testing.T, f func()) (res bubbleResult) {
 		return r
 	case <-time.After(limit):
 	}
-	buf := make([]byte, 4<<20)
-	dump := string(buf[:runtime.Stack(buf, true)])
+	// Sample the goroutines of the bubble a number of times: one that spins shows up running in
+	// (nearly) every sample; a live-lock (client and server goroutines handing work to each other
+	// without the clock ever advancing, e.g. a retry loop without back-off) shows client frames
+	// running in many samples, in varying functions.
 	var spinning, mutexed []string
-	for _, g := range strings.Split(dump, "\n\n") {
-		if !strings.Contains(g, "synctest bubble") {
-			continue
+	frames := map[string]int{}
+	samplesWithClient := 0
+	const samples = 40
+	buf := make([]byte, 4<<20)
+	for i := 0; i < samples; i++ {
+		select {
+		case r := <-done:
+			return r // it finished after all (a very slow case, not a stuck one)
+		default:
 		}
-		head := g
-		if i := strings.Index(g, "\n"); i > 0 {
-			head = g[:i]
+		dump := string(buf[:runtime.Stack(buf, true)])
+		hit := false
+		for _, g := range strings.Split(dump, "\n\n") {
+			if !strings.Contains(g, "synctest bubble") {
+				continue
+			}
+			head := g
+			if i := strings.Index(g, "\n"); i > 0 {
+				head = g[:i]
+			}
+			switch {
+			case (strings.Contains(head, "[running") || strings.Contains(head, "[runnable")) && strings.Contains(g, "github.com/tsuna/gohbase"):
+				spinning = append(spinning, g)
+				frames[topFrame(g)]++
+				hit = true
+			case strings.Contains(head, "sync.Mutex.Lock") || strings.Contains(head, "sync.RWMutex"):
+				mutexed = append(mutexed, g)
+			}
 		}
-		switch {
-		case (strings.Contains(head, "[running") || strings.Contains(head, "[runnable")) && strings.Contains(g, "github.com/tsuna/gohbase"):
-			spinning = append(spinning, g)
-		case strings.Contains(head, "sync.Mutex.Lock") || strings.Contains(head, "sync.RWMutex"):
-			mutexed = append(mutexed, g)
+		if hit {
+			samplesWithClient++
 		}
+		time.Sleep(25 * time.Millisecond)
 	}
 	switch {
-	case len(spinning) > 0:
+	case samplesWithClient >= samples/8:
 		g := spinning[0]
 		if len(g) > 2500 {
 			g = g[:2500]
 		}
-		return bubbleResult{Spin: fmt.Sprintf("after %v of real time a goroutine of the client is still running without blocking (hot loop):\n%s", limit, g)}
+		best, bestN := "", 0
+		for f, n := range frames {
+			if n > bestN || n == bestN && f < best {
+				best, bestN = f, n
+			}
+		}
+		if len(frames) == 1 {
+			return bubbleResult{Spin: fmt.Sprintf("after %v of real time a goroutine of the client is still running without blocking (hot loop in %s):\n%s", limit, best, g)}
+		}
+		return bubbleResult{Spin: fmt.Sprintf("after %v of real time the client is still busy without the clock ever advancing (live-lock: retrying with no back-off; "+
+			"client frames seen running in %d of %d samples: %v):\n%s", limit, samplesWithClient, samples, frames, g), Livelock: true}
 	case len(mutexed) > 0:
 		return bubbleResult{Frozen: "the bubble's clock is frozen by a goroutine parked on a mutex (harness limitation):\n" + mutexed[0]}
 	}
@@ -141,6 +173,9 @@ func bubbleStacks(dump string) string {
 // spinning client goroutine is a violation (hot loop), anything else is infrastructure.
 func stuckVerdict(res bubbleResult) (Outcome, bool) {
 	if res.Spin != "" {
+		if res.Livelock {
+			return viol("client-spin@livelock", "%s", res.Spin), true
+		}
 		return viol("client-spin@"+topFrame(res.Spin), "%s", res.Spin), true
 	}
 	if res.Frozen != "" {
